@@ -97,9 +97,11 @@ fn all_words(letters: &[u32], maxlen: usize) -> Vec<Vec<u32>> {
     out
 }
 
-pub fn check_term(ctx: &mut ReCtx, rep: &mut Report, t: RegLan, words: &[Vec<u32>], repls: &[Vec<u32>], case: &str, seed: u64, rng: &mut Rng) -> bool {
-    let r = ctx.sref(t);
-    let dfa = ctx.dfa(&r).ok();
+/// compare both replace functions on every (word, replacement) with the SMT-LIB definition evaluated on the
+/// match table of `r` (`what` says which reading of "the expression" r is: the construction the user wrote,
+/// or the term's own AST)
+pub fn check_term(ctx: &mut ReCtx, rep: &mut Report, t: RegLan, r: &R, what: &str, words: &[Vec<u32>], repls: &[Vec<u32>], case: &str, seed: u64, rng: &mut Rng) -> bool {
+    let dfa = ctx.dfa(r).ok();
     if dfa.is_none() {
         rep.inc("terms_judged_by_dp_only");
     }
@@ -113,14 +115,14 @@ pub fn check_term(ctx: &mut ReCtx, rep: &mut Report, t: RegLan, words: &[Vec<u32
                 let tb = table_dfa(d, ctx.atoms(), wd);
                 if wd.len() <= 4 && rng.chance(1, 8) {
                     rep.inc("oracle_selfchecks");
-                    if tb != table_dp(&r, wd) {
+                    if tb != table_dp(r, wd) {
                         rep.harness_error(format!("oracle A/B disagree on match table of {} for {}", show_str(wd), r.show()));
                         return true;
                     }
                 }
                 tb
             }
-            None => table_dp(&r, wd),
+            None => table_dp(r, wd),
         };
         let sw = SmtString::from(&wd[..]);
         for rp in repls {
@@ -131,20 +133,21 @@ pub fn check_term(ctx: &mut ReCtx, rep: &mut Report, t: RegLan, words: &[Vec<u32
             match guard(|| (w::str_replace_re(&sw, t, &srp), w::str_replace_re_all(&sw, t, &srp))) {
                 Ok((g1, g2)) => {
                     let (g1, g2): (Vec<u32>, Vec<u32>) = (g1.iter().copied().collect(), g2.iter().copied().collect());
+                    let nl = if t.nullable { "nullable-pattern" } else { "pattern" };
                     if g1 != want1 {
-                        rep.violation("replace-re", if t.nullable { "replace-re:nullable-pattern" } else { "replace-re:pattern" }, format!("str_replace_re({}, {}, {}) = {} but the leftmost shortest match gives {}", show_str(wd), term_text(t), show_str(rp), show_str(&g1), show_str(&want1)), KIND_WRAP, case, seed);
+                        rep.violation("replace-re", &format!("replace-re:{}:{}", nl, what), format!("str_replace_re({}, {}, {}) = {} but the leftmost shortest match of the {} {} gives {}", show_str(wd), term_text(t), show_str(rp), show_str(&g1), what, short(&r.show(), 160), show_str(&want1)), KIND_WRAP, case, seed);
                         return false;
                     }
                     if g2 != want2 {
-                        rep.violation("replace-re-all", if t.nullable { "replace-re-all:nullable-pattern" } else { "replace-re-all:pattern" }, format!("str_replace_re_all({}, {}, {}) = {} but replacing the leftmost shortest non-empty matches gives {}", show_str(wd), term_text(t), show_str(rp), show_str(&g2), show_str(&want2)), KIND_WRAP, case, seed);
+                        rep.violation("replace-re-all", &format!("replace-re-all:{}:{}", nl, what), format!("str_replace_re_all({}, {}, {}) = {} but replacing the leftmost shortest non-empty matches of the {} {} gives {}", show_str(wd), term_text(t), show_str(rp), show_str(&g2), what, short(&r.show(), 160), show_str(&want2)), KIND_WRAP, case, seed);
                         return false;
                     }
                     if g1 != *wd {
                         rep.inc("replace_calls_that_replaced_something");
                         if r.size() <= 14 && rep.xchecks.len() < 60 && rng.chance(1, 200) {
                             use crate::oracle::smtlib::{lit, re};
-                            rep.xcheck(|| format!("(= (str.replace_re {} {} {}) {})", lit(wd), re(&r), lit(rp), lit(&g1)));
-                            rep.xcheck(|| format!("(= (str.replace_re_all {} {} {}) {})", lit(wd), re(&r), lit(rp), lit(&g2)));
+                            rep.xcheck(|| format!("(= (str.replace_re {} {} {}) {})", lit(wd), re(r), lit(rp), lit(&g1)));
+                            rep.xcheck(|| format!("(= (str.replace_re_all {} {} {}) {})", lit(wd), re(r), lit(rp), lit(&g2)));
                         }
                     }
                 }
@@ -204,7 +207,14 @@ pub fn check_program(prog: &Program, seed: u64, thorough: bool, rep: &mut Report
         let case = prog.slice(k).to_text();
         // a sample of the words per term keeps the quick tier short; all words on every 4th term
         let ws: Vec<Vec<u32>> = if k % 4 == 0 { words.clone() } else { words.iter().filter(|_| rng.chance(1, 4)).cloned().collect() };
-        check_term(&mut ctx, rep, t, &ws, &repls, &case, seed, &mut rng);
+        // the expression as the caller wrote it (SMT-LIB meaning of the construction) ...
+        let built = run.refs[k].clone();
+        if !check_term(&mut ctx, rep, t, &built, "construction", &ws, &repls, &case, seed, &mut rng) {
+            continue;
+        }
+        // ... and the term's own AST (isolates the matcher from constructor rewrites)
+        let ws2: Vec<Vec<u32>> = ws.iter().filter(|_| rng.chance(1, 3)).cloned().collect();
+        check_term(&mut ctx, rep, t, &r, "term", &ws2, &repls, &case, seed, &mut rng);
     }
 }
 
